@@ -1,6 +1,7 @@
 """C09 — only complete, successful results reach the Action Cache
 (ExecPipeline.tla; real stack Caching(..StorageFlushing(base, flush)) over the
-real BatchedStoreBlobAccess, harness/execpipe)."""
+real BatchedStoreBlobAccess: harness/execpipe with a scripted base executor,
+harness/outputs TestPipeline with the real localBuildExecutor)."""
 import glob
 import json
 import os
@@ -99,25 +100,42 @@ def run(ctx):
     if rc != 0:
         raise vlib.Infra("execpipe random driver failed:\n" + o[-2000:])
 
+    # 4. the same stack around the REAL base executor: localBuildExecutor with
+    #    its OutputHierarchy and build directory (virtual / native) uploading
+    #    through the batching writer, every fault kind at every storage call
+    #    (harness/outputs TestPipeline; same events, same trace specification)
+    pbinary = vlib.go_build_test(ctx, "outputs")
+    out3 = ctx.sub("pipe")
+    penv = {"VERIF_PIPE_STRIDE": 2, "VERIF_PIPE_SEM2": 0, "VERIF_CHUNK": 2500}
+    if not ctx.quick():
+        penv = {"VERIF_PIPE_STRIDE": 1, "VERIF_PIPE_SEM2": 1, "VERIF_CHUNK": 2500}
+    rc, o = vlib.run_driver(pbinary, "TestPipeline", out3, ctx.seed, env=penv, timeout=1500)
+    if rc != 0:
+        raise vlib.Infra("pipeline driver (real base executor) failed:\n" + o[-2000:])
+    pmeta = json.load(open(out3 + "/meta.json"))
+
     files = sorted(glob.glob(out + "/trace_*.ndjson"))
     rfiles = sorted(glob.glob(out2 + "/trace_*.ndjson"))
-    if not files or not rfiles:
+    pfiles = sorted(glob.glob(out3 + "/trace_*.ndjson"))
+    if not files or not rfiles or not pfiles:
         raise vlib.Infra("execpipe drivers wrote no trace")
     ctx.cov["samples"] += vlib.sample_lines(files[-1], 8)
+    _validate_all(ctx, pfiles, "pipe", 3000)
     _validate_all(ctx, rfiles, "rand", 3000)
     _validate_all(ctx, files, "enum", 3000)
     ctx.assumptions += [
-        "the base executor references a digest only if its Put returned nil and attaches Put errors to the response (as localBuildExecutor does)",
+        "scripted-base runs: the base executor references a digest only if its Put returned nil and attaches Put errors to the response; "
+        "the runs with the real localBuildExecutor (step 4) do not assume this",
         "the CAS answers FindMissing truthfully and stored blobs do not disappear during one Execute call",
     ]
     return vlib.finish(
         ctx,
-        rule="TLC explores ExecPipeline.tla exhaustively (<=3 blobs with duplicates, %s Puts, batch 1..3, semaphore 1..2, every base outcome, do_not_cache, every ok/fail/cancel choice at every CAS FindMissing/Put, AC Put and historical Put) and checks C09_AC, C09_Error, C09_Ack, C09_Buffers. The real stack Caching(Metrics(FilePoolStats(Timestamped(StorageFlushing(base, flush))))) over the real BatchedStoreBlobAccess is run over instrumented CAS/AC fakes for every canonical put sequence up to length %d (every subset pre-existing, batch 1..3, 3 outcomes x do_not_cache, missing action / bad digest) with a fail and a cancel at every storage call position (up to %d faults per run), plus %d seeded random scenarios; TLC evaluates the four clauses on every logged run (AC put attempt => cacheable, OK, exit 0, referenced digests in CAS at that moment; any failed CAS call/flush => error status, nothing cached, no digests advertised; flush nil => all acknowledged Puts stored; every buffer closed exactly once). Distinct = distinct spec states + validated events." % (
-            "3" if ctx.quick() else "4", meta["maxlen"], meta["depth"], n),
+        rule="TLC explores ExecPipeline.tla exhaustively (<=3 blobs with duplicates, %s Puts, batch 1..3, semaphore 1..2, every base outcome, do_not_cache, every ok/fail/cancel/cancelled-after-success choice at every CAS FindMissing/Put, AC Put and historical Put) and checks C09_AC, C09_Error, C09_Ack, C09_Buffers. The real stack Caching(Metrics(FilePoolStats(Timestamped(StorageFlushing(base, flush))))) over the real BatchedStoreBlobAccess is run over instrumented CAS/AC fakes for every canonical put sequence up to length %d (every subset pre-existing, batch 1..3, 3 outcomes x do_not_cache, missing action / bad digest) with a fail, a cancel and a success-then-cancelled-context at every storage call position (up to %d faults per run), plus %d seeded random scenarios; the same stack is run around the real localBuildExecutor (real OutputHierarchy, virtual and native build directory, fake runner; %d runs) with every fault kind at every storage call, logging every Put made through the batching writer and every blob the response references (files inside Trees and Directory messages included); TLC evaluates the four clauses on every logged run (AC put attempt => cacheable, OK, exit 0, referenced digests in CAS at that moment; any failed CAS call/flush => error status, nothing cached, no digests advertised; flush nil => all acknowledged Puts stored; every buffer closed exactly once). Distinct = distinct spec states + validated events." % (
+            "3" if ctx.quick() else "4", meta["maxlen"], meta["depth"], n, pmeta["runs"]),
         explanation="fault-position enumeration of the result pipeline, judged by ExecPipelineTrace.tla",
         exhaustive=True,
         extra={"enumeration": {k: meta[k] for k in ("scenarios", "runs", "maxlen", "depth", "deeplen", "sems")},
-               "random_runs": n},
+               "random_runs": n, "real_base_runs": pmeta["runs"], "real_base_scenarios": pmeta["scenarios"]},
     )
 
 
